@@ -250,8 +250,13 @@ def grid_cases(ctx):
         fmt = r.choice(["sdmf", "mdmf"])
         phase = r.choice(["create", "update", "update"])
         nbad = r.randrange(0, S + 1)
+        # in every run: both formats, creation and update, with more than N-k of the write requests failing (an error is due)
+        FORCED = [("mdmf", "update", 10, (3, 10), 8), ("mdmf", "create", 10, (3, 10), 10), ("sdmf", "update", 10, (3, 10), 8),
+                  ("mdmf", "update", 4, (2, 4), 3), ("sdmf", "create", 5, (3, 5), 4)]
+        if i < len(FORCED):
+            fmt, phase, S, (k, N), nbad = FORCED[i]
         badservers = sorted(r.sample(range(S), nbad))
-        action = r.choice(["error", "error", "error_after"])
+        action = r.choice(["error", "error", "error_after"]) if i >= len(FORCED) else "error"
         plan = [{"server": s, "method": "slot_testv_and_readv_and_writev", "nth": 0, "count": None, "action": action} for s in badservers]
         case = {"seed": seed, "servers": S, "k": k, "N": N, "format": fmt, "phase": phase, "bad_servers": badservers, "action": action}
         with G.Grid(num_clients=1, num_servers=S, k=k, n=N, happy=1, seed=seed, timeout=240) as g:
